@@ -272,6 +272,8 @@ impl<A: LoadableAsset + SeekableAsset> TapeImpl for Tap<A> {
         self.delay = 0;
         self.asset.seek(SeekFrom::Start(0))?;
         self.tape_ended = false;
+        // Nothing saved by an earlier `stop` is valid for the rewound tape
+        self.prev_state = TapeState::Stop;
         Ok(())
     }
 }
